@@ -97,6 +97,10 @@ def ensure_facts(config='dev', verbose=True):
     # trees at the same time; without it all extractions of this /verif are serialised on one target directory
     slot = os.environ.get('KV_EXTRACT_SLOT', '')
     slot = ('-' + re.sub(r'[^A-Za-z0-9]', '', slot)) if slot else ''
+    # two locks: per tree (two checkers must not extract the same tree into the same directory at once) and per slot (one cargo run per target directory)
+    os.makedirs(os.path.join(CACHE, 'facts', config), exist_ok=True)
+    keylock = open(os.path.join(CACHE, 'facts', config, key + '.lock'), 'w')
+    fcntl.flock(keylock, fcntl.LOCK_EX)
     lockf = open(os.path.join(CACHE, 'extract%s.lock' % slot), 'w')
     fcntl.flock(lockf, fcntl.LOCK_EX)
     try:
@@ -159,6 +163,8 @@ def ensure_facts(config='dev', verbose=True):
             base = os.path.join(CACHE, 'facts', config)
             ents = []
             for e in os.listdir(base):
+                if e.endswith('.lock'):
+                    continue
                 d = os.path.join(base, e, 'DONE.json')
                 is_repo = False
                 try:
@@ -170,7 +176,7 @@ def ensure_facts(config='dev', verbose=True):
             ents.sort()
             scratch = [x for x in ents if not x[2]]
             repo = [x for x in ents if x[2]]
-            for _, e, _r in scratch[:-16] + repo[:-6]:
+            for _, e, _r in scratch[:-48] + repo[:-6]:
                 shutil.rmtree(os.path.join(base, e), ignore_errors=True)
         with open(done) as fh:
             info = json.load(fh)
@@ -186,3 +192,5 @@ def ensure_facts(config='dev', verbose=True):
     finally:
         fcntl.flock(lockf, fcntl.LOCK_UN)
         lockf.close()
+        fcntl.flock(keylock, fcntl.LOCK_UN)
+        keylock.close()
